@@ -624,9 +624,23 @@ def checkC16 (obs : String) : Option String :=
               some ("printer-not-a-single-critical-section " ++ String.ofList n)
             else none
           | _ => if isPrefix (cl!"%lf3:print:") n then some ("printer-not-a-single-critical-section " ++ String.ofList n) else none
+        -- the objects each printer captures, resolved the way let* does (the latest earlier binding
+        -- of the name): printers on one port object must hold one and the same mutex object
+        let resolve (k : Nat) (nm : Text) : Option Nat :=
+          (((p.bindings.take k).zipIdx.filter (fun x => x.1.1 = nm)).getLast?).map (·.2)
+        let captured : List (Option Nat × Option Nat) := p.bindings.zipIdx.filterMap fun (b, k) =>
+          match b.2 with
+          | .list [.sym mp, .sym port, .sym mutex, _] =>
+            if mp = cl!"make-printer" then some (resolve k port, resolve k mutex) else none
+          | _ => none
+        let clash := captured.any fun a => captured.any fun b => a.1 == b.1 && a.2 != b.2
+        let unbound := captured.any fun a => a.1.isNone || a.2.isNone
         match bad with
         | some b => some b
         | none =>
+          if clash then some "two-mutex-objects-guard-one-port"
+          else if unbound then some "printer-captures-an-unbound-port-or-mutex"
+          else
           -- plain mode carries terminated lines only: a printer without terminator must be fed newline-ended text
           let bare : List Text := p.bindings.filterMap fun (n, ini) =>
             match ini with
